@@ -33,7 +33,7 @@ ASSUMPTIONS = [
     "the calculators are deterministic functions of the configuration (harness calculators)",
     "PCG64 accepts any non-negative integer seed; seeds tested: 0, 1, 2**32-1, 2**63 and seeds derived from VERIF_SEED",
 ]
-REQUIRED = {"twin_runs_compared": 40, "fresh_process_twins": 6, "seed0_runs": 7, "steps_compared": 1000, "distinct_seed_pairs": 20, "tripwire_armed": 1}
+REQUIRED = {"twin_runs_compared": 55, "fresh_process_twins": 6, "seed0_runs": 15, "steps_compared": 1400, "distinct_seed_pairs": 20, "tripwire_armed": 1}
 SHARD_TIMEOUT = {"quick": 900, "thorough": 3000}
 
 TRIP: dict = {"calls": []}
@@ -44,12 +44,12 @@ def workloads(tier):
     w = []
     gas = {"kind": "gas", "n": 4, "edge": 7.0, "extras": ["tags", "momenta"], "seed": 3}
     mols = {"kind": "molecules", "nmol": 3, "molsize": 2, "framework": 2, "edge": 9.0, "seed": 4}
-    w.append(("canonical-ball", {"driver": "Canonical", "T": 400.0, "cycles": 3, "atoms": gas, "calc": {"kind": "soft"}, "table": [{"name": "d", "move": D()}]}))
+    w.append(("canonical-ball", {"driver": "Canonical", "T": 400.0, "cycles": 3, "atoms": gas, "calc": {"kind": "soft"}, "table": [{"name": "d", "move": D(), "min": 1}, {"name": "b", "move": D("Box"), "interval": 2, "probability": 0.3}]}))
     w.append(("canonical-composite", {"driver": "Canonical", "T": 900.0, "cycles": 2, "atoms": mols, "calc": {"kind": "soft"}, "table": [{"name": "rot", "move": {"t": "D", "op": {"t": "Rotation"}}}, {"name": "dd", "move": {"t": "*", "part": D("Box"), "n": 2}, "probability": 2.0, "criteria": "canonical"}, {"name": "mix", "move": {"t": "+", "parts": [D("Sphere"), D("Ball")]}, "interval": 2, "criteria": "canonical"}]}))
     w.append(("hamiltonian", {"driver": "HamiltonianCanonical", "T": 500.0, "cycles": 1, "atoms": {"kind": "gas", "n": 3, "edge": 6.0, "pbc": False, "seed": 5, "extras": ["masses"]}, "calc": {"kind": "harmonic", "k": 1.5, "q": 0.5}, "table": [{"name": "h", "move": {"t": "H", "dt": 2.0, "steps": 6}}]}))
-    w.append(("isobaric", {"driver": "Isobaric", "T": 800.0, "P": 0.01, "cycles": 3, "atoms": {**gas, "triclinic": True}, "calc": {"kind": "soft"}, "table": [{"name": "c", "move": {"t": "C", "op": {"t": "Aniso", "mv": 0.05}}}, {"name": "d", "move": D()}]}))
+    w.append(("isobaric", {"driver": "Isobaric", "T": 800.0, "P": 0.01, "cycles": 3, "atoms": {**gas, "triclinic": True}, "calc": {"kind": "soft"}, "table": [{"name": "c", "move": {"t": "C", "op": {"t": "Aniso", "mv": 0.05}}, "min": 1}, {"name": "d", "move": D(), "min": 1}]}))
     w.append(("isotension", {"driver": "Isotension", "T": 800.0, "P": 0.01, "S": [[0.01, 0.002, 0], [0.002, 0.0, 0], [0, 0, -0.01]], "cycles": 3, "atoms": gas, "calc": {"kind": "soft"}, "table": [{"name": "c", "move": {"t": "C", "op": {"t": "Shape", "mv": 0.05}, "scale": False}}, {"name": "i", "move": {"t": "C", "op": {"t": "Iso", "mv": 0.05}}}, {"name": "d", "move": D("Box")}]}))
-    w.append(("grand-atomic", {"driver": "GrandCanonical", "T": 1500.0, "mu": -0.05, "cycles": 3, "species": 1, "atoms": gas, "calc": {"kind": "soft"}, "table": [{"name": "x", "move": {"t": "E"}}, {"name": "d", "move": D()}]}))
+    w.append(("grand-atomic", {"driver": "GrandCanonical", "T": 1500.0, "mu": -0.05, "cycles": 3, "species": 1, "atoms": gas, "calc": {"kind": "soft"}, "table": [{"name": "x", "move": {"t": "E"}, "min": 2}, {"name": "d", "move": D(), "interval": 3}]}))
     w.append(("grand-molecular", {"driver": "GrandCanonical", "T": 2500.0, "mu": -0.02, "cycles": 3, "species": 2, "atoms": mols, "calc": {"kind": "soft"}, "table": [{"name": "x", "move": {"t": "E", "op": {"t": "TranslationRotation"}}}, {"name": "d", "move": {"t": "D", "op": {"t": "TranslationRotation"}}}]}))
     w.append(("forcebias", {"driver": "ForceBias", "T": 300.0, "delta": 0.15, "atoms": {"kind": "mixed", "n": 5, "edge": 8.0, "pbc": False, "seed": 6}, "calc": {"kind": "harmonic", "k": 1.0}}))
     w.append(("adaptive-forcebias", {"driver": "AdaptiveForceBias", "T": 300.0, "delta": 0.2, "atoms": {"kind": "mixed", "n": 5, "edge": 8.0, "pbc": False, "seed": 7}, "calc": {"kind": "committee"}}))
@@ -61,10 +61,23 @@ def workloads(tier):
 
 
 def plan(tier, seed):
+    from qv import workloads as wl
+    from qv.lib import rng_for
+
     steps = 30 if tier == "quick" else 300
     specs = []
     for name, w in workloads(tier):
         specs.append({"name": name, "w": w, "steps": steps, "seed": seed, "fresh": 1 if tier == "quick" else 3})
+    # (no constraints here: ASE 3.26's extended-XYZ writer cannot write atoms carrying a FixCom constraint - observed,
+    #  an ASE limitation - and every run of this check writes a trajectory)
+    # seeded random tables (every ensemble, + / * composites, minimum counts, intervals, vetoes, scripted criteria)
+    rng = rng_for("C06-tables", seed)
+    fams = ["canonical", "hamiltonian", "isobaric", "isotension", "grand"]
+    for i in range(10 if tier == "quick" else 60):
+        fam = fams[i % 5]
+        w = wl.gen(rng, fam, styles=["plain"], constraints=False, grand_kinds=["E", "E", "D", "E*2", "D+E", "E+E", "D*2+E", "same"])
+        w.pop("seed", None)
+        specs.append({"name": f"random-{fam}-{i}", "w": w, "steps": 20 if tier == "quick" else 80, "seed": seed, "fresh": 0, "nseeds": 2})
     return specs
 
 
@@ -174,6 +187,8 @@ def run(spec):
     rec.count("tripwire_armed")
     w, steps = spec["w"], spec["steps"]
     seeds = [0, 1, 2**32 - 1, 2**63, derive_seed("c06", spec["seed"], spec["name"])]
+    if spec.get("nseeds"):
+        seeds = [0, derive_seed("c06", spec["seed"], spec["name"])][: spec["nseeds"]]
     at5 = {}
     for si, seed in enumerate(seeds):
         try:
@@ -199,7 +214,7 @@ def run(spec):
             rec.viol(f"C06/global-generator-used/{label}/{site.split(':')[0]}", f"package code called {label} at {site} during a seeded run", {**wit, "site": site})
         at5[seed] = s1[min(5, len(s1) - 1)]
         # fresh interpreter twin
-        if si in (0, 4)[: spec["fresh"]] or (spec["fresh"] > 2 and si == 2):
+        if spec["fresh"] and (si in (0, 4)[: spec["fresh"]] or (spec["fresh"] > 2 and si == 2)):
             s3 = child_stream(w, seed, steps)
             if s3 is None:
                 rec.inconclusive.append("fresh-interpreter twin failed to run")
